@@ -55,9 +55,30 @@ def order_lit(trav):
     return coq([(sorted(p), (sorted(l), sorted(r))) for p, l, r in trav])
 
 
-def run_recorded(core, tree, chi, order, late):
-    """tree.compressed_contract_stats with a recording tracker substituted from outside"""
+def run_recorded(core, tree, chi, order, late, bonds=None):
+    """tree.compressed_contract_stats with a recording tracker substituted from outside; with `bonds` a
+    list, every (multi)bond the run looks at -- each group of non-output edges with the same node set in
+    HyperGraph.compress and in neighborhood_compress_cost -- has its combined size appended to it"""
     base = core.CompressedStatsTracker
+    from cotengra.hypergraph import HyperGraph
+    orig_compress, orig_ncc = HyperGraph.compress, HyperGraph.neighborhood_compress_cost
+
+    def group_sizes(hg, edges, skip=None):
+        groups = {}
+        for e in dict.fromkeys(edges):
+            if e not in hg.output:
+                groups.setdefault(frozenset(hg.edges[e]), []).append(e)
+        if skip is not None:
+            groups.pop(frozenset(skip), None)
+        return [oracle.prod(hg.size_dict[e] for e in es) for es in groups.values()]
+
+    def rec_compress(self, chi, edges=None):
+        bonds.extend(group_sizes(self, self.edges if edges is None else edges))
+        return orig_compress(self, chi, edges)
+
+    def rec_ncc(self, chi, nodes):
+        bonds.extend(group_sizes(self, [e for n_ in nodes for e in self.get_node(n_)], skip=nodes))
+        return orig_ncc(self, chi, nodes)
 
     class Rec(base):
         def __init__(self, hg, chi_):
@@ -76,10 +97,13 @@ def run_recorded(core, tree, chi, order, late):
             ))
 
     core.CompressedStatsTracker = Rec
+    if bonds is not None:
+        HyperGraph.compress, HyperGraph.neighborhood_compress_cost = rec_compress, rec_ncc
     try:
         tr = tree.compressed_contract_stats(chi=chi, order=order, compress_late=late)
     finally:
         core.CompressedStatsTracker = base
+        HyperGraph.compress, HyperGraph.neighborhood_compress_cost = orig_compress, orig_ncc
     return tr, tr._trace
 
 
@@ -142,9 +166,12 @@ def run(ctx):
                 ctx.fail("tree.traverse(%s) is not a complete children-first order" % oname, rec)
                 continue
             res = {}
+            bonds = {}
             for gi, (chi, late) in enumerate(grid):
                 try:
-                    tr, trace = run_recorded(core, tree, chi, order, late)
+                    if chi == HUGE:
+                        bonds[late] = []
+                    tr, trace = run_recorded(core, tree, chi, order, late, bonds=bonds[late] if chi == HUGE else None)
                 except Exception as e:
                     ctx.fail("compressed_contract_stats(chi=%r, order=%s, compress_late=%r) raised %r" % (
                         chi, oname, late, e), rec)
@@ -214,6 +241,29 @@ def run(ctx):
                         ctx.fail("uncapped flops %r != exact flops %r" % (un.flops, spec["flops"]), rec2)
                 else:
                     ctx.count("uncapped_flops_equal")
+                # the boundary: a cap EQUAL to the largest (multi)bond that arises truncates nothing, so every
+                # estimate must be the uncapped one (which is judged against the exact figures above)
+                B = max(bonds.get(late) or [1])
+                try:
+                    tb, trace_b = run_recorded(core, tree, B, order, late)
+                    ctx.count("boundary_runs")
+                    for f in ("flops", "max_size", "write", "peak_size"):
+                        if getattr(tb, f) != getattr(un, f):
+                            ctx.fail("with the cap equal to the largest bond that arises (chi=%d) %s is %r, uncapped %r, "
+                                     "although nothing is truncated" % (B, f, getattr(tb, f), getattr(un, f)),
+                                     dict(rec2, chi=B, bonds=sorted(set(bonds.get(late) or []))))
+                    if rng.random() < 0.25:
+                        term = "ccs_trace {c} {l} (ccs_init {n}) {o}".format(c=coq(Z(B)), l=coq(late), n=netl, o=order_lit(trav))
+                        sens = "t_sens (cs_tr (ccs_run {c} {l} {n} {o}))".format(c=coq(Z(B)), l=coq(late), n=netl, o=order_lit(trav))
+                        rhs = coq([(t_[0], (t_[1], (t_[2], t_[3]))) for t_ in trace_b])
+                        cases.append(("%s/%s/chi=maxbond%d/late=%s" % (label, oname, B, late),
+                                      "if %s then %s else %s" % (sens, rhs, term), rhs))
+                        sens_terms.append(sens)
+                        ids_cases.append(("%s/%s/chi=maxbond%d/late=%s" % (label, oname, B, late),
+                                          "ids_ok {c} {l} {n} {o}".format(c=coq(Z(B)), l=coq(late), n=netl, o=order_lit(trav)), "true"))
+                        records.append(dict(rec, chi=B, compress_late=late))
+                except Exception as e:
+                    ctx.fail("compressed_contract_stats(chi=%r) raised %r" % (B, e), rec2)
                 for chi in CHIS[:-1]:
                     if (chi, late) not in res:
                         continue
